@@ -19,6 +19,23 @@ Definition known_body (b : str) : bool :=
   no_angle b &&
   existsb (fun n => is_prefix n (strip_slash b) && rest_ok (skipn (length n) (strip_slash b))) known_names.
 
+Definition stamp_tail (r1 : str) : bool :=
+  match r1 with
+  | [p; f1; f2; f3] => (p =? 46) && is_digit f1 && is_digit f2 && is_digit f3
+  | [c1; c; d; p; f1; f2; f3] =>
+      (c1 =? 58) && is_digit c && is_digit d && (p =? 46) && is_digit f1 && is_digit f2 && is_digit f3
+  | _ => false
+  end.
+(* a WebVTT timestamp tag body: H+:MM[:SS].mmm *)
+Definition stamp_body (s : str) : bool :=
+  match take_while is_digit s, drop_while is_digit s with
+  | _ :: _, c0 :: a :: b :: r1 => (c0 =? 58) && is_digit a && is_digit b && stamp_tail r1
+  | _, _ => false
+  end.
+
+(* a tag WebVTT defines: by name, or a timestamp *)
+Definition tag_body (b : str) : bool := known_body b || (no_angle b && stamp_body b).
+
 Definition ascii_letter (c : Z) : bool := ((65 <=? c) && (c <=? 90)) || ((97 <=? c) && (c <=? 122)).
 Definition unknown_body (b : str) : bool :=
   let s := strip_slash b in
@@ -31,7 +48,7 @@ Inductive vseg : Type := SText (s : str) | SKnown (body : str) | SUnknown (body 
 Definition seg_ok (g : vseg) : bool :=
   match g with
   | SText s => forallb (fun c => negb (c =? 60)) s
-  | SKnown b => known_body b
+  | SKnown b => tag_body b
   | SUnknown b => unknown_body b
   end.
 Definition seg_render (g : vseg) : str :=
@@ -106,6 +123,96 @@ Proof.
   repeat (apply orb_true_iff in H; destruct H as [H|H]); try discriminate;
     destruct (G _ H) as (r & Hs & Hok & Hno); rewrite Hs; cbn -[other_suffix];
     apply suffix_after_name; assumption.
+Qed.
+
+Lemma take_drop_while : forall f s, take_while f s ++ drop_while f s = s.
+Proof. induction s as [|c s IH]; [reflexivity|]. cbn [take_while drop_while]. destruct (f c); [cbn [app]; rewrite IH|]; reflexivity. Qed.
+Lemma take_while_all : forall f s, forallb f (take_while f s) = true.
+Proof. induction s as [|c s IH]; [reflexivity|]. cbn [take_while]. destruct (f c) eqn:E; [cbn [forallb]; rewrite E, IH|]; reflexivity. Qed.
+Lemma take_while_app_stop : forall f h c t, forallb f h = true -> f c = false ->
+  take_while f (h ++ c :: t) = h /\ drop_while f (h ++ c :: t) = c :: t.
+Proof.
+  induction h as [|x h IH]; intros c t H Hc.
+  - cbn. rewrite Hc. split; reflexivity.
+  - cbn [forallb] in H. apply andb_true_iff in H. destruct H as [Hx Hh]. cbn [app take_while drop_while]. rewrite Hx.
+    destruct (IH c t Hh Hc) as [A B]. rewrite A, B. split; reflexivity.
+Qed.
+Lemma digit_neq : forall c k, is_digit c = true -> (k < 48 \/ 57 < k) -> (c =? k) = false /\ (k =? c) = false.
+Proof.
+  intros c k H Hk. unfold is_digit in H. apply andb_true_iff in H. destruct H as [A B]. apply Z.leb_le in A. apply Z.leb_le in B.
+  split; apply Z.eqb_neq; lia.
+Qed.
+
+Lemma stamp_matches : forall s R, stamp_body s = true ->
+  match other_name (strip_slash s ++ 62 :: R) with Some r => other_suffix true r | None => None end = Some R.
+Proof.
+  intros s R H. unfold stamp_body in H.
+  pose proof (take_drop_while is_digit s) as TD. pose proof (take_while_all is_digit s) as TA.
+  destruct (take_while is_digit s) as [|x h] eqn:Eh; [discriminate|].
+  destruct (drop_while is_digit s) as [|c0 [|a [|b r1]]] eqn:Ed; try discriminate.
+  apply andb_true_iff in H. destruct H as [H Ht]. apply andb_true_iff in H. destruct H as [H Hb]. apply andb_true_iff in H.
+  destruct H as [Hc Ha]. apply Z.eqb_eq in Hc. subst c0.
+  cbn [forallb] in TA. apply andb_true_iff in TA. destruct TA as [Hx Hh].
+  assert (S : strip_slash s = s).
+  { rewrite <- TD. cbn [app strip_slash]. destruct (digit_neq x 47 Hx) as [-> _]; [lia|]. reflexivity. }
+  rewrite S, <- TD. clear S TD Eh Ed.
+  assert (ON : forall T, other_name ((x :: h) ++ T) = ts_match ((x :: h) ++ T)).
+  { intros T. cbn [app other_name].
+    destruct (digit_neq x 99 Hx) as [-> _]; [lia|]. destruct (digit_neq x 105 Hx) as [-> _]; [lia|].
+    destruct (digit_neq x 98 Hx) as [-> _]; [lia|]. destruct (digit_neq x 117 Hx) as [-> _]; [lia|].
+    destruct (digit_neq x 118 Hx) as [-> _]; [lia|]. cbn [orb].
+    change (lit "ruby") with [114; 117; 98; 121]. change (lit "rt") with [114; 116]. change (lit "lang") with [108; 97; 110; 103].
+    cbn [is_prefix]. destruct (digit_neq x 114 Hx) as [_ ->]; [lia|]. destruct (digit_neq x 108 Hx) as [_ ->]; [lia|].
+    cbn [andb]. reflexivity. }
+  assert (TW : forall T, take_while is_digit ((x :: h) ++ 58 :: T) = x :: h /\ drop_while is_digit ((x :: h) ++ 58 :: T) = 58 :: T).
+  { intros T. apply take_while_app_stop; [cbn [forallb]; rewrite Hx, Hh; reflexivity|reflexivity]. }
+  unfold stamp_tail in Ht.
+  destruct r1 as [|p [|f1 [|f2 [|f3 [|e1 [|e2 [|e3 [|e4 r]]]]]]]]; try discriminate.
+  - (* MM.mmm *)
+    repeat (apply andb_true_iff in Ht; destruct Ht as [Ht ?]). apply Z.eqb_eq in Ht. subst p.
+    rewrite <- app_assoc, ON. unfold ts_match.
+    change ((58 :: a :: b :: [46; f1; f2; f3]) ++ 62 :: R) with (58 :: a :: b :: 46 :: f1 :: f2 :: f3 :: 62 :: R).
+    destruct (TW (a :: b :: 46 :: f1 :: f2 :: f3 :: 62 :: R)) as [-> ->].
+    cbn [app two_digits three_digits]. rewrite Ha, Hb. cbn [andb two_digits three_digits].
+    repeat (match goal with Hd : is_digit _ = true |- _ => rewrite Hd; clear Hd end; cbn [andb two_digits three_digits]).
+    cbn [andb other_suffix]. reflexivity.
+  - (* MM:SS.mmm *)
+    repeat (apply andb_true_iff in Ht; destruct Ht as [Ht ?]). apply Z.eqb_eq in Ht. subst p.
+    match goal with Hq : (f3 =? 46) = true |- _ => apply Z.eqb_eq in Hq; subst f3 end.
+    rewrite <- app_assoc, ON. unfold ts_match.
+    change ((58 :: a :: b :: [58; f1; f2; 46; e1; e2; e3]) ++ 62 :: R) with (58 :: a :: b :: 58 :: f1 :: f2 :: 46 :: e1 :: e2 :: e3 :: 62 :: R).
+    destruct (TW (a :: b :: 58 :: f1 :: f2 :: 46 :: e1 :: e2 :: e3 :: 62 :: R)) as [-> ->].
+    cbn [app two_digits three_digits]. rewrite Ha, Hb. cbn [andb two_digits three_digits].
+    repeat (match goal with Hd : is_digit _ = true |- _ => rewrite Hd; clear Hd end; cbn [andb two_digits three_digits]).
+    cbn [andb other_suffix]. reflexivity.
+Qed.
+
+Definition stamp_char (c : Z) : bool := is_digit c || (c =? 58) || (c =? 46).
+Lemma stamp_chars : forall s, stamp_body s = true ->
+  forallb stamp_char s = true /\ (exists x t, s = x :: t /\ is_digit x = true).
+Proof.
+  intros s H. unfold stamp_body in H.
+  pose proof (take_drop_while is_digit s) as TD. pose proof (take_while_all is_digit s) as TA.
+  destruct (take_while is_digit s) as [|x h] eqn:Eh; [discriminate|].
+  destruct (drop_while is_digit s) as [|c0 [|a [|b r1]]] eqn:Ed; try discriminate.
+  apply andb_true_iff in H. destruct H as [H Ht]. apply andb_true_iff in H. destruct H as [H Hb]. apply andb_true_iff in H.
+  destruct H as [Hc Ha]. apply Z.eqb_eq in Hc. subst c0.
+  assert (DG : forall l, forallb is_digit l = true -> forallb stamp_char l = true).
+  { induction l as [|c l IH]; intros Hl; [reflexivity|]. cbn [forallb] in *. apply andb_true_iff in Hl. destruct Hl as [A B].
+    unfold stamp_char at 1. rewrite A, (IH B). reflexivity. }
+  split; [|exists x, (h ++ 58 :: a :: b :: r1); split; [rewrite <- TD; reflexivity|cbn [forallb] in TA; apply andb_true_iff in TA; apply TA]].
+  rewrite <- TD, forallb_app, (DG _ TA). cbn [forallb andb]. unfold stamp_char at 1 2 3. rewrite Ha, Hb. cbn [orb andb].
+  unfold stamp_tail in Ht.
+  destruct r1 as [|p [|f1 [|f2 [|f3 [|e1 [|e2 [|e3 [|e4 r]]]]]]]]; try discriminate;
+    repeat (apply andb_true_iff in Ht; destruct Ht as [Ht ?]); cbn [forallb]; unfold stamp_char;
+    repeat match goal with Hd : _ = true |- _ => rewrite Hd; clear Hd end; rewrite ?orb_true_r; reflexivity.
+Qed.
+
+Lemma tag_matches : forall b R, tag_body b = true ->
+  match other_name (strip_slash b ++ 62 :: R) with Some r => other_suffix true r | None => None end = Some R.
+Proof.
+  intros b R H. unfold tag_body in H. apply orb_true_iff in H. destruct H as [H|H]; [apply known_matches, H|].
+  apply andb_true_iff in H. apply stamp_matches, H.
 Qed.
 
 Lemma mem_str_in : forall x l, In x l -> mem_str x l = true.
@@ -213,7 +320,7 @@ Proof.
     rewrite other_sub_text by exact Hg. f_equal. apply IH; [exact Hgs|lia].
   - cbn [length] in Hf. rewrite app_length in Hf. cbn [length] in Hf.
     destruct f as [|f']; [lia|]. cbn [app other_sub_aux]. rewrite Z.eqb_refl.
-    rewrite <- app_assoc. cbn [app]. rewrite strip_slash_app_gt, (known_matches b _ Hg).
+    rewrite <- app_assoc. cbn [app]. rewrite strip_slash_app_gt, (tag_matches b _ Hg).
     apply IH; [exact Hgs|lia].
   - cbn [length] in Hf. rewrite app_length in Hf. cbn [length] in Hf.
     destruct f as [|f']; [lia|]. cbn [app other_sub_aux]. rewrite Z.eqb_refl.
